@@ -782,42 +782,51 @@ def exhaustive_pairs(ctx):
                     yield {"kind": "pair", "head": list(word[:cut]), "tail": list(word[cut:]), "strands": [strand, strand]}
 
 
-def run(ctx):
-    install(ctx)
-    alphabet_all = sorted(set().union(*mi.CLASSIFICATIONS.values()))
-    ctx.exhaustive = True
+def _phase(ctx, name, items, until):
+    """ yields items until they run out or until the share `until` of the soft time budget is used:
+        every phase gets its turn (at least 64 items) whatever the machine load; a cut phase is
+        counted, never hidden """
+    limit = ctx.budget_s * until
     done = 0
-    for word in exhaustive_words(ctx):
-        if done % 64 == 0 and ctx.time_left() < ctx.budget_s * 0.45:
-            ctx.exhaustive = False
+    for item in items:
+        if done >= 64 and done % 16 == 0 and ctx.budget_s - ctx.time_left() > limit:
             ctx.budget_hit = True
+            ctx.count("budget_cut:" + name)
             break
-        _drive(ctx, {"kind": "gene", "tokens": word})
+        yield item
         done += 1
-    ctx.count("exhaustive:gene-words", done)
-    done = 0
-    for case in exhaustive_pairs(ctx):
-        if done % 64 == 0 and ctx.time_left() < ctx.budget_s * 0.3:
-            ctx.exhaustive = False
-            ctx.budget_hit = True
-            break
-        _drive(ctx, case)
-        done += 1
-    ctx.count("exhaustive:gene-pairs", done)
+    ctx.count("cases:" + name, done)
 
-    rng = ctx.rng("clusters")
-    for _ in ctx.cases(ctx.quota(1000, 160000)):
-        _drive(ctx, G.gen_cluster(rng, alphabet_all))
-    rng = ctx.rng("genes")
-    for _ in ctx.cases(ctx.quota(7000, 1200000)):
+
+def _random_genes(ctx, rng, alphabet_all, count):
+    for _ in range(count):
         case = {"kind": "gene", "tokens": G.gen_word(rng, alphabet_all)}
         if rng.random() < 0.2:
             case["order"] = list(range(len(case["tokens"])))
             rng.shuffle(case["order"])
+        yield case
+
+
+def run(ctx):
+    install(ctx)
+    alphabet_all = sorted(set().union(*mi.CLASSIFICATIONS.values()))
+    for word in _phase(ctx, "exhaustive-gene-words", exhaustive_words(ctx), 0.35):
+        _drive(ctx, {"kind": "gene", "tokens": word})
+    for case in _phase(ctx, "exhaustive-gene-pairs", exhaustive_pairs(ctx), 0.45):
+        _drive(ctx, case)
+    ctx.exhaustive = not (ctx.counters.get("budget_cut:exhaustive-gene-words")
+                          or ctx.counters.get("budget_cut:exhaustive-gene-pairs"))
+    rng = ctx.rng("clusters")
+    clusters = (G.gen_cluster(rng, alphabet_all) for _ in range(ctx.quota(1000, 160000)))
+    for case in _phase(ctx, "clusters", clusters, 0.65):
+        _drive(ctx, case)
+    for case in _phase(ctx, "random-genes", _random_genes(ctx, ctx.rng("genes"), alphabet_all,
+                                                          ctx.quota(7000, 1200000)), 0.85):
         _drive(ctx, case)
     rng = ctx.rng("pairs")
-    for _ in ctx.cases(ctx.quota(5000, 800000)):
-        _drive(ctx, G.gen_pair(rng, alphabet_all))
+    pairs = (G.gen_pair(rng, alphabet_all) for _ in range(ctx.quota(5000, 800000)))
+    for case in _phase(ctx, "random-pairs", pairs, 1.0):
+        _drive(ctx, case)
     ctx.extra["exhaustive_part"] = ("gene words and gene pairs as in RULE, share of this process: index mod "
                                     f"{ctx.nworkers}")
 
